@@ -440,7 +440,18 @@ def gen_params():
             return isinstance(st, ast.If) and any(isinstance(x, ast.Attribute) and x.attr == "current_thread" for x in ast.walk(st.test))
 
         plain = [st for st in cdef.body if not thread_guarded(st)]
-        clears = assigns_const(plain, lambda t: isinstance(t, ast.Attribute) and t.attr == "_disconnect_callback", None)
+        # one level of helper methods called as self.<m>(...) on that path is looked into as well
+        helpers = []
+        for st in plain:
+            for n in ast.walk(st):
+                if isinstance(n, ast.Call) and isinstance(n.func, ast.Attribute) and isinstance(n.func.value, ast.Name) and n.func.value.id == "self":
+                    m = getattr(C.YncaConnection, n.func.attr, None)
+                    if callable(m):
+                        try:
+                            helpers += fdef_of(m).body
+                        except Exception:  # noqa
+                            pass
+        clears = assigns_const(plain + helpers, lambda t: isinstance(t, ast.Attribute) and t.attr == "_disconnect_callback", None)
         kdef = fdef_of(C.YncaConnection.connect)
         rearms = assigns_const(kdef.body, lambda t: is_self_attr(t, "_closed"), False)
         for n in ast.walk(kdef):
@@ -454,7 +465,208 @@ def gen_params():
                             wrapper_checks = True
     except Exception:  # noqa: unreadable -> all false
         pass
+    # YncaApi.initialize() and what it calls, for Model/Startup.v (fail-closed: anything unrecognised reads as false)
+    def wait_failure_raises(fn):
+        """the one timed wait() of fn sits in the test of an `if`, and the branch taken when the wait timed out
+        contains a `raise` as a direct statement"""
+        try:
+            fdef = fdef_of(fn)
+        except Exception:  # noqa
+            return False
+        hits = []
+        # the wait's result may first be put into a local that is assigned once:  ok = ev.wait(t);  if not ok: raise
+        local = None
+        assigned = {}
+        for n in ast.walk(fdef):
+            if isinstance(n, ast.Assign) and len(n.targets) == 1 and isinstance(n.targets[0], ast.Name):
+                assigned[n.targets[0].id] = assigned.get(n.targets[0].id, 0) + 1
+                if isinstance(n.value, ast.Call) and isinstance(n.value.func, ast.Attribute) and n.value.func.attr == "wait":
+                    local = n.targets[0].id
+        if local is not None and assigned.get(local) != 1:
+            local = None
+        for n in ast.walk(fdef):
+            if isinstance(n, ast.If):
+                calls = [x for x in ast.walk(n.test) if isinstance(x, ast.Call) and isinstance(x.func, ast.Attribute) and x.func.attr == "wait"]
+                if len(calls) == 1:
+                    neg = isinstance(n.test, ast.UnaryOp) and isinstance(n.test.op, ast.Not) and n.test.operand is calls[0]
+                    pos = n.test is calls[0]
+                    branch = n.body if neg else (n.orelse if pos else [])
+                    hits.append(any(isinstance(st, ast.Raise) for st in branch))
+                elif local is not None:
+                    neg = isinstance(n.test, ast.UnaryOp) and isinstance(n.test.op, ast.Not) and isinstance(n.test.operand, ast.Name) and n.test.operand.id == local
+                    pos = isinstance(n.test, ast.Name) and n.test.id == local
+                    if neg or pos:
+                        branch = n.body if neg else n.orelse
+                        hits.append(any(isinstance(st, ast.Raise) for st in branch))
+        waits = [x for x in ast.walk(fdef) if isinstance(x, ast.Call) and isinstance(x.func, ast.Attribute) and x.func.attr == "wait"]
+        return len(waits) == 1 and hits == [True]
+
+    def calls_not_swallowed(fn, method, owner=None):
+        """every call `<x>.<method>()` in fn is either outside any try, or inside tries all of whose handlers end with
+        a bare `raise` (and no `finally`/`else` trickery is accepted: orelse must be empty).  With owner given, a call
+        `self.<h>(...)` of a method h of owner that itself passes this test counts as such a call (one level)."""
+        try:
+            fdef = fdef_of(fn)
+        except Exception:  # noqa
+            return False
+        found = [0]
+        ok = [True]
+        via = set()
+        if owner is not None:
+            for nm, m in vars(owner).items():
+                if callable(m) and m is not fn and getattr(m, "__name__", None) != getattr(fn, "__name__", None):
+                    try:
+                        src_has = f".{method}(" in inspect.getsource(m)
+                    except Exception:  # noqa
+                        src_has = False
+                    if src_has and calls_not_swallowed(m, method):
+                        via.add(nm)
+
+        def visit(node, guards):
+            for ch in ast.iter_child_nodes(node):
+                if isinstance(ch, ast.Try):
+                    for st in ch.body:
+                        visit_stmt(st, guards + [ch])
+                    for part in (ch.orelse, ch.finalbody):
+                        for st in part:
+                            visit_stmt(st, guards)
+                    for h in ch.handlers:
+                        for st in h.body:
+                            visit_stmt(st, guards)
+                else:
+                    visit_stmt(ch, guards)
+
+        def visit_stmt(node, guards):
+            if isinstance(node, ast.Call) and isinstance(node.func, ast.Attribute) and ((node.func.attr == method and not node.args) or (node.func.attr in via and isinstance(node.func.value, ast.Name) and node.func.value.id == "self")):
+                found[0] += 1
+                for t in guards:
+                    for h in t.handlers:
+                        last = h.body[-1] if h.body else None
+                        if not (isinstance(last, ast.Raise) and last.exc is None):
+                            ok[0] = False
+                    if t.orelse:
+                        ok[0] = False
+            if isinstance(node, (ast.FunctionDef, ast.Lambda)) and node is not fdef:
+                return
+            visit(node, guards)
+
+        visit(fdef, [])
+        # statements that leave the loop early or skip an iteration silently are not accepted either
+        if any(isinstance(n, (ast.Continue, ast.Break)) for n in ast.walk(fdef)):
+            ok[0] = False
+        return found[0] >= 1 and ok[0]
+
+    def finally_closes(fn):
+        """try: ...; <flag> = True   finally: if not <flag>: self.close()   with <flag> = False before the try, and the
+        calls of the two start-up helpers inside the try-body"""
+        try:
+            fdef = fdef_of(fn)
+        except Exception:  # noqa
+            return False
+        tries = [n for n in fdef.body if isinstance(n, ast.Try)]
+        if len(tries) != 1:
+            return False
+        t = tries[0]
+        helpers_in = all(any(isinstance(x, ast.Call) and isinstance(x.func, ast.Attribute) and x.func.attr == h for st in t.body for x in ast.walk(st)) for h in ("_detect_available_subunits", "_initialize_available_subunits"))
+        no_ret = not any(isinstance(x, ast.Return) for st in t.body for x in ast.walk(st))
+        # second accepted shape:  try: ...  except BaseException (or bare except): ...; self.close(); ...; raise
+        if len(t.handlers) == 1 and not t.orelse and not t.finalbody and t.body:
+            h = t.handlers[0]
+            catches_all = h.type is None or (isinstance(h.type, ast.Name) and h.type.id == "BaseException")
+            closes = any(isinstance(x, ast.Call) and isinstance(x.func, ast.Attribute) and x.func.attr == "close" and isinstance(x.func.value, ast.Name) and x.func.value.id == "self" for st in h.body if not isinstance(st, (ast.If, ast.Try, ast.For, ast.While)) for x in ast.walk(st))
+            reraises = bool(h.body) and isinstance(h.body[-1], ast.Raise) and h.body[-1].exc is None
+            return bool(catches_all and closes and reraises and helpers_in and no_ret)
+        if t.handlers or t.orelse or not t.body or len(t.finalbody) != 1:
+            return False
+        last = t.body[-1]
+        if not (isinstance(last, ast.Assign) and len(last.targets) == 1 and isinstance(last.targets[0], ast.Name) and isinstance(last.value, ast.Constant) and last.value.value is True):
+            return False
+        flag = last.targets[0].id
+        init_false = any(isinstance(n, ast.Assign) and len(n.targets) == 1 and isinstance(n.targets[0], ast.Name) and n.targets[0].id == flag and isinstance(n.value, ast.Constant) and n.value.value is False for n in fdef.body[: fdef.body.index(t)])
+        others = [n for n in ast.walk(fdef) if isinstance(n, ast.Assign) and any(isinstance(x, ast.Name) and x.id == flag for x in n.targets)]
+        fin = t.finalbody[0]
+        shape = (isinstance(fin, ast.If) and isinstance(fin.test, ast.UnaryOp) and isinstance(fin.test.op, ast.Not) and isinstance(fin.test.operand, ast.Name) and fin.test.operand.id == flag
+                 and not fin.orelse and any(isinstance(x, ast.Call) and isinstance(x.func, ast.Attribute) and x.func.attr == "close" and isinstance(x.func.value, ast.Name) and x.func.value.id == "self" for st in fin.body for x in ast.walk(st)))
+        helpers_inside = all(any(isinstance(x, ast.Call) and isinstance(x.func, ast.Attribute) and x.func.attr == h for st in t.body for x in ast.walk(st)) for h in ("_detect_available_subunits", "_initialize_available_subunits"))
+        no_return_in_try = not any(isinstance(x, ast.Return) for st in t.body for x in ast.walk(st))
+        return bool(init_false and len(others) == 2 and shape and helpers_inside and no_return_in_try)
+
+    # two facts about YncaProtocol, for C01 and C10 (fail-closed)
+    def enqueue_lossless(P):
+        """raw()/put()/the keep-alive hand their item to the send queue and nothing on that path can drop it: the put is a
+        plain blocking put(item), or a non-blocking one on a queue created without a size bound; no exception handler on
+        the path; one level of self.<helper>() calls is followed"""
+        try:
+            cls = ast.parse(textwrap.dedent(inspect.getsource(P))).body[0]
+            unbounded = None
+            for n in ast.walk(cls):
+                if isinstance(n, ast.Assign) and any(isinstance(t, ast.Attribute) and t.attr == "_send_queue" for t in n.targets) and isinstance(n.value, ast.Call):
+                    f = n.value.func
+                    nm = f.attr if isinstance(f, ast.Attribute) else getattr(f, "id", None)
+                    if nm in ("Queue", "LifoQueue", "PriorityQueue"):
+                        a = list(n.value.args) + [k.value for k in n.value.keywords]
+                        ub = not a or all(isinstance(x, ast.Constant) and x.value == 0 for x in a)
+                        if nm != "Queue":
+                            return False
+                    elif nm == "SimpleQueue":
+                        ub = True
+                    else:
+                        return False
+                    unbounded = ub if unbounded is None else (unbounded and ub)
+            if unbounded is None:
+                return False
+
+            def puts_in(fd, depth):
+                """number of accepted puts reachable; None when something unacceptable is on the path"""
+                cnt = 0
+                for n in ast.walk(fd):
+                    if isinstance(n, ast.ExceptHandler):
+                        return None
+                    if isinstance(n, ast.Call) and isinstance(n.func, ast.Attribute):
+                        tgt = n.func.value
+                        if isinstance(tgt, ast.Attribute) and tgt.attr == "_send_queue":
+                            if n.func.attr == "put" and len(n.args) == 1 and not n.keywords:
+                                cnt += 1
+                            elif n.func.attr in ("put", "put_nowait") and unbounded and len(n.args) >= 1:
+                                cnt += 1
+                            else:
+                                return None
+                        elif isinstance(tgt, ast.Name) and tgt.id == "self" and depth == 0 and n.func.attr not in ("raw", "put", "get"):
+                            h = getattr(P, n.func.attr, None)
+                            if callable(h) and "_send_queue" in inspect.getsource(h):
+                                r = puts_in(fdef_of(h), 1)
+                                if r is None:
+                                    return None
+                                cnt += r
+                return cnt
+
+            for name in ("raw", "put", "_send_keepalive"):
+                r = puts_in(fdef_of(getattr(P, name)), 0)
+                if r is None or r < 1:
+                    return False
+            g = fdef_of(P.get)
+            if any(isinstance(n, ast.ExceptHandler) for n in ast.walk(g)):
+                return False
+            return True
+        except Exception:
+            return False
+
+    def handle_line_raises_nothing(P):
+        """handle_line contains no raise statement of its own (what it calls -- the message callback -- is C10's
+        decode-inside-the-handler matter)"""
+        try:
+            fd = fdef_of(P.handle_line)
+            return not any(isinstance(n, ast.Raise) for n in ast.walk(fd))
+        except Exception:
+            return False
+
     b = lambda x: "true" if x else "false"  # noqa: E731
+    out.append(f"Definition p_enqueue_lossless : bool := {b(enqueue_lossless(P))}.")
+    out.append(f"Definition p_handle_line_raises_nothing : bool := {b(handle_line_raises_nothing(P))}.")
+    out.append(f"Definition p_detect_raises : bool := {b(wait_failure_raises(A.YncaApi._detect_available_subunits))}.")
+    out.append(f"Definition p_subinit_raises : bool := {b(wait_failure_raises(S.SubunitBase.initialize))}.")
+    out.append(f"Definition p_init_failure_propagates : bool := {b(calls_not_swallowed(A.YncaApi._initialize_available_subunits, 'initialize', A.YncaApi))}.")
+    out.append(f"Definition p_finally_closes : bool := {b(finally_closes(A.YncaApi.initialize))}.")
     out.append(f"Definition p_close_clears_cb : bool := {b(clears)}.")
     out.append(f"Definition p_wrapper_checks_closed : bool := {b(wrapper_checks)}.")
     out.append(f"Definition p_connect_rearms : bool := {b(rearms)}.")
